@@ -219,7 +219,7 @@ func runShard(p sim.Property, tier string, seed uint64, shard, nCases, nSecs int
 	_ = flag.Set("rapid.nofailfile", "true")
 	st := "45s"
 	if tier == "quick" {
-		st = "20s"
+		st = "12s"
 	}
 	_ = flag.Set("rapid.shrinktime", st)
 	bins, err := sim.Build()
